@@ -8,6 +8,14 @@ by m adds) run on real goroutines released together; QueueWake_Trace must find a
 explains every reply - also an error reply of a blocked Pop - and the final drain."""
 
 
+def _load(ctx, name):
+    """A harness that recorded a `hang` (a call of the code under test that neither returns nor blocks)
+    ends early: trace files of later phases do not exist then."""
+    import os
+    p = ctx.path(name)
+    return ctx.load_traces(p) if os.path.exists(p) else []
+
+
 def run(ctx):
     fam = "queue"
     # 1. the design, exhaustively within small constants
@@ -31,8 +39,8 @@ def run(ctx):
                          "-hist", ctx.q(400, 5000), "-phist", ctx.q(120, 1500), "-maxops", ctx.q(60, 90)],
                 traces=[ctx.path("list.ndjson"), ctx.path("priq.ndjson")])
     # 4. validate what the real code did
-    lst = ctx.load_traces(ctx.path("list.ndjson"))
-    pri = ctx.load_traces(ctx.path("priq.ndjson"))
+    lst = _load(ctx, "list.ndjson")
+    pri = _load(ctx, "priq.ndjson")
     rj = ctx.validate(fam, "Queue_Trace", "Queue_Trace.cfg", lst, label="list-queues", chunk=40000)
     rj += ctx.validate(fam, "PriQueue_Trace", "PriQueue_Trace.cfg", pri, label="priq", chunk=40000)
     # 5. overlapping calls must still be explained by SOME order of them: {close | try-close | try-clear}
@@ -45,7 +53,7 @@ def run(ctx):
                       "-stress", ctx.path("x2.ndjson"), "-pstress", ctx.path("x3.ndjson"), "-seed", ctx.seed,
                       "-rand", 0, "-prand", 0, "-race", ctx.q(640, 4000), "-rounds", "ctl,ctl,take,feed"],
                 traces=[ctx.path("races.ndjson")])
-    races = ctx.load_traces(ctx.path("races.ndjson"))
+    races = _load(ctx, "races.ndjson")
     rj += ctx.validate(fam, "QueueWake_Trace", "QueueWake_Trace.cfg", races, label="races", chunk=40000)
     ctx.extra["race_traces"] = len(races)
     ctx.judge(rj)
@@ -64,7 +72,6 @@ def run(ctx):
         "priq priorities are logged as RANKS among the priorities of the trace (harness-side integer "
         "comparison); the real entries carry MinInt, MinInt+1, -1, 0, 1, MaxInt-1, MaxInt, random 64-bit "
         "values and small ones (only the order of priorities matters to the property)",
-        "priq capacities >= 1 only (whether capacity 0 means 'unbounded' or 'always full' is left open); "
         "list-queue capacities 0 (unbounded) and 1..5",
         "on a closed lane that also holds its capacity either refusal (closed / full) is accepted; "
         "TryClose on a closed non-empty queue may answer either way (state unchanged)",
@@ -72,6 +79,14 @@ def run(ctx):
         "round are applied in any order with wake-ups in between, every reply (a blocked Pop's error reply is "
         "logged as reply 'err', which no action of the spec has) and the final drain / accessors must fit it; "
         "kinds of rounds: ctl (x2), take, feed - see cmd/c13 raceCtl / raceParked",
+        "every call runs on a watched helper goroutine: a call that parks (or sleeps in AddAnyway's retry "
+        "loop) is logged as reply 'blocked', one that keeps running for a minute as 'hang' - both rejected",
+        "about half of the histories are 'late': every item a call handed out is kept AS RETURNED and decoded "
+        "into the trace only when the history is over; the other half is written call by call",
+        "configuration extremes: 'unbounded' is configured as 0, -1, MinInt and MaxInt (logged clamped to "
+        "+-2^30, never reached); priq capacities 0 / negative (every Push refused: len >= capacity, as "
+        "DESIGN 4/C12 states) and MaxInt; AddAnyway (issued while the lane is not full), async.Q.Size, "
+        "WaitClose / WaitClear with a live context (issued once closed / cleared) and with an ended one",
         "q.Q / priq expose no IsClosed: their state is bound through replies and the final drain only",
     ]
     return ctx.finish(
